@@ -272,6 +272,13 @@ func (r *NodeManagement) processNotifyDetailedDiscoveryData(message *api.Message
 				}
 
 				entityAddress := ei.Description.EntityAddress.Entity
+
+				// the device information entity carries node management, without it
+				// no message of the remote device would be accepted any more
+				if slices.Equal(entityAddress, DeviceInformationAddressEntity) {
+					continue
+				}
+
 				removedEntity := remoteDevice.RemoveEntityByAddress(entityAddress)
 
 				// only continue if the entity existed
